@@ -61,6 +61,10 @@ fn main() {
             let s2 = with_priorities(&mut rng, sys);
             sys = with_contradictions(&mut rng, s2);
         }
+        if i % 5 == 4 {
+            // a re-solve from the previous result (for contradictory systems: from the compromise)
+            sys = with_resolve(sys);
+        }
         systems += 1;
         for analysis in [false, true] {
             let res = if analysis {
